@@ -28,6 +28,7 @@ RULE = (
     "/ filter document."
 )
 RULE += (" " + 'Key-collision documents are drawn in addition: several items that serialise to one dict key (flag-alias spellings re|i / re|ignorecase without a pipeline, many-to-one field mappings with one, explicit |all items); reloaded queries may differ as text only if they are pairwise equivalent by truth table over the decoded leaves.')
+RULE += (" Every standard attribute a document sets must reappear in the dict; log sources carry further keys; items with an empty value list occur.")
 ASSUMPTIONS = [
     "queries are compared as strings of one backend (same code on both sides)",
     "only what the statement claims is asserted: dict form and queries, not object equality",
@@ -232,6 +233,13 @@ def check_case(case: dict) -> Outcome:
     except Exception as e:  # noqa
         out.fail(f"C06:{kind}:to_dict-exception:{type(e).__name__}", f"{e!r} for {case['doc']!r}"[:500])
         return out
+    # every standard attribute the document sets must be written (a dict that silently lacks it is not faithful)
+    for key in ("id", "name", "status", "description", "license", "references", "tags", "author", "date", "modified", "fields",
+                "falsepositives", "level", "scope", "related", "taxonomy"):
+        if doc.get(key) not in (None, [], "") and key not in d1 and not (key == "taxonomy" and doc[key] == "sigma"):
+            out.fail(f"C06:{kind}:attribute-not-serialised:{key}", f"document sets {key}={doc[key]!r}, to_dict() has no such key: {sorted(d1)}")
+    if isinstance(doc.get("logsource"), dict) and isinstance(d1.get("logsource"), dict) and set(doc["logsource"]) - set(d1["logsource"]):
+        out.fail(f"C06:{kind}:logsource-key-not-serialised", f"log source {doc['logsource']!r} written as {d1['logsource']!r}")
     for via in ("dict", "yaml"):
         try:
             if via == "dict":
@@ -292,6 +300,12 @@ def rule_cases(draw):
     for k, v in META.items():
         if draw(st.booleans()):
             doc[k] = copy.deepcopy(v)
+    if draw(st.integers(0, 3)) == 0:  # further keys of the log source map are kept as custom attributes
+        doc["logsource"] = dict(doc.get("logsource", {}), **draw(st.sampled_from([{"foo": "bar"}, {"definition": "needs audit policy"}, {"x": "1", "y": "two words"}])))
+    if draw(st.integers(0, 5)) == 0:  # an item with an empty value list
+        name = next(iter(k for k, v in doc["detection"].items() if k != "condition" and isinstance(v, dict)), None)
+        if name:
+            doc["detection"][name]["emptylist"] = []
     if draw(st.booleans()):
         doc["date"] = draw(st.sampled_from(DATES))
     if draw(st.booleans()):
